@@ -5,7 +5,7 @@ _SRC = 'harness/C06_xfm.cpp'
 
 def _b(name, part):
     # one source, six binaries: -DC06_PART selects which register_partN() instantiates its templates
-    return rc(name, _SRC, None, flags='-DC06_PART=%d' % part, thorough=dict(scale=6, seeds=4))
+    return rc(name, _SRC, None, flags='-DC06_PART=%d' % part, thorough=dict(scale=5, seeds=3))
 
 
 PROP = dict(
